@@ -238,7 +238,7 @@ class C11(Check):
                          {"log": [], "errorcode": 0})
                     return
                 continue
-            if w.device.mode != MODE_SIGNER and fname != "uiHeartbeat" or not device_ok:
+            if w.device.mode != MODE_SIGNER or not device_ok:
                 # bring-up may stop by itself: outside the statement
                 stats.dont_care += 1
                 return
